@@ -19,18 +19,19 @@ from . import c14_oracle as O
 sys.path.insert(0, os.path.join(os.path.dirname(os.path.dirname(os.path.abspath(__file__))), "harness"))
 import ptyrun  # noqa: E402
 
-# name, do_exec name (None = the transform has no inline form in this build)
+# name, do_exec name (the DO(...) name in Value::do_exec; every transform has one since 7582c10)
 TABLE = [
     ("addr-to-scriptpubkey", "addr_to_spk"), ("add", "add"), ("bech32-decode", "bech32dec"), ("bech32-encode", "bech32enc"),
-    ("bech32m-encode", None), ("base58chk-decode", "base58chkdec"), ("base58chk-encode", "base58chkenc"),
+    ("bech32m-encode", "bech32menc"), ("base58chk-decode", "base58chkdec"), ("base58chk-encode", "base58chkenc"),
     ("combine-pubkeys", "combine_pubkeys"), ("echo", "echo"), ("hash160", "hash160"), ("hash256", "hash256"), ("hex", "hex"),
-    ("int", "int"), ("len", None), ("jacobi-symbol", "jacobi"), ("prefix-compact-size", "prefix_compact_size"),
+    ("int", "int"), ("len", "len"), ("jacobi-symbol", "jacobi"), ("prefix-compact-size", "prefix_compact_size"),
     ("pubkey-to-xpubkey", "pubkey_to_xpubkey"), ("reverse", "reverse"), ("ripemd160", "ripemd160"), ("sha256", "sha256"),
     ("scriptpubkey-to-addr", "spk_to_addr"), ("sub", "sub"), ("tagged-hash", "tagged_hash"),
     ("taproot-tweak-pubkey", "taproot_tweak_pubkey"), ("tweak-pubkey", "tweak_pubkey"), ("verify-sig", "verify_sig"),
-    ("verify-sig-compact", None)]
+    ("verify-sig-compact", "verify_sig_compact")]
+# the inline name `tf -h` prints for a row where it is not the DO(...) name (do_exec accepts both)
 INLINE_ADVERTISED = {"bech32-decode": "b32d", "bech32-encode": "b32e", "bech32m-encode": "b32me", "base58chk-decode": "b58cd",
-                     "base58chk-encode": "b58ce", "jacobi-symbol": "jacobi_sym", "len": "len", "verify-sig-compact": "verify_sig_compact"}
+                     "base58chk-encode": "b58ce", "jacobi-symbol": "jacobi_sym"}
 UNARY = ["echo", "hex", "int", "len", "reverse", "sha256", "ripemd160", "hash256", "hash160", "prefix-compact-size",
          "base58chk-encode", "bech32-encode", "bech32m-encode"]
 OPERAND_TF = ["add", "sub", "tagged-hash", "combine-pubkeys", "tweak-pubkey", "taproot-tweak-pubkey", "verify-sig",
@@ -351,11 +352,9 @@ def words_of(case):
 
 
 def region(case, im, mo, sp):
-    """which recorded finding (if any) a disagreement belongs to.  The only region left: rows of the tf table that have no
-    (or a differently named) inline form — every other defect found by this check has been repaired in the tree, and its
-    reproducers stay in the streams as regression cases."""
-    if case.startswith("INLINE"):
-        return "F-C14-inline-missing"
+    """which recorded finding (if any) a disagreement belongs to.  None is left: every defect found by this check has been
+    repaired in the tree (the last one, the rows of the tf table without / with a differently named inline form, by 7582c10),
+    and the reproducers stay in the streams as regression cases."""
     return None
 
 
@@ -730,11 +729,10 @@ def gen_inline(rnd, quick):
         for a in args:
             if name in SLOW_ENCODERS and len(a.bytes()) > SLOW_ENCODERS[name]:
                 continue
-            if ex is not None:
-                pairs.append((name, ex, a))
+            pairs.append((name, ex, a))
             adv = INLINE_ADVERTISED.get(name)
-            if adv is not None and a is args[0]:
-                pairs.append((name, adv, a))
+            if adv is not None:
+                pairs.append((name, adv, a))           # the name `tf -h` prints, on every argument as well
     return pairs
 
 
@@ -810,7 +808,17 @@ def run(ctx):
     compare_spec(ctx, "tf-command-oracle", lines[:n], impl[:n], model[:n], orc, tally_o)
     ctx.notes.append({"tf_lines": len(lines), "oracle_opinions": opinions, "cases_in_defect_regions": tally, "cases_in_defect_regions_oracle": tally_o})
 
-    # 4. inline form = command form (implementation), and model = implementation on the inline form
+    # 4. inline form = command form (implementation), and model = implementation on the inline form.
+    #    The names come from TABLE / INLINE_ADVERTISED; `tf -h` of the real tool (equal to the model's text by stream 1) must list
+    #    exactly these commands and, in the same order, exactly these inline names: then every name the tool prints is exercised.
+    help_line = "TF 2d68"
+    help_text = obs(impl[lines.index(help_line)])
+    rows_shown = [l.split(" ")[0] for l in help_text.split("\n\n")[0].split("\n") if l]
+    inl_shown = help_text.strip("\n").split("\n")[-1].split("they are called:")[-1].split()
+    if rows_shown != [n for n, _ in TABLE] or inl_shown != [INLINE_ADVERTISED.get(n, ex) for n, ex in TABLE]:
+        ctx.violation(help_line, {"stream": "inline-vs-command", "tf -h": help_text, "commands_expected": [n for n, _ in TABLE],
+                                  "inline_expected": [INLINE_ADVERTISED.get(n, ex) for n, ex in TABLE],
+                                  "why": "`tf -h` lists other commands / inline names than the ones this check exercises"})
     pairs = gen_inline(rnd, quick)
     il = ["INLINE " + (ex + "(" + a.text + ")").encode("latin1").hex() for _, ex, a in pairs]
     cl = [tf_line(name, [a]) for name, _, a in pairs]
@@ -818,7 +826,16 @@ def run(ctx):
               "ripemd160(sha256(0x))", "hash160(0x)", "reverse(hash256(zebra))", "base58chkdec(base58chkenc(0x00112233))", "bech32dec(bech32enc(0x0011223344))",
               "spk_to_addr(addr_to_spk(1BgGZ9tcN4rm9KBzDn7KprQz87SZ26SAMH))", "add([0x1122 sub([0x3344 0x1100])])", "prefix_compact_size(prefix_compact_size(0x))",
               "int(0x0102030405)", "reverse(OP_DUP)", "sha256()", "sha256(", "(0x12)", "sha256(0x12)x", "aaaaaaaaaaaaaaaaaaaaaaaaaaaaaaaaaaaaaaaaa(0x12)", "hex(hex(hex(5)))",
-              "sha256([1 2 sha256(0x03)])", "echo([OP_DUP hash160(0x02aa) OP_EQUAL])", "int(zebra)", "int(OP_16)", "jacobi(0x%s)" % (b"\x04" + bytes(31)).hex()]
+              "sha256([1 2 sha256(0x03)])", "echo([OP_DUP hash160(0x02aa) OP_EQUAL])", "int(zebra)", "int(OP_16)", "jacobi(0x%s)" % (b"\x04" + bytes(31)).hex(),
+              # the inline forms added by 7582c10, alone and nested, on every argument kind and on refused arguments
+              "len(0x)", "len()", "len(zebra)", "len(5)", "len(-1000)", "len(0)", "len(OP_DUP)", "len(OP_0)", "len([OP_DUP 0x1234 7])", "len(len(0x1234))",
+              "len(sha256(0x))", "len(1234zz)", "len(12zz)", "Len(0x12)", "len (0x12)", "jacobi_sym(0x%s)" % (b"\x04" + bytes(31)).hex(), "jacobi_sym(0x04)",
+              "jacobi_sym([0x%s 0x%s])" % ((5).to_bytes(32, "little").hex(), bytes(32).hex()),
+              "b58cd(b58ce(0x00112233))", "base58chkdec(b58ce(0x))", "b58cd(zebra)", "b58cd(0x1234)", "b32d(b32e(0x0011223344))", "b32d(b32me(0x0011223344))",
+              "bech32dec(bech32menc(0x%s))" % bytes(range(32)).hex(), "b32d(zebra)", "b32d(5)", "b32me(zebra)", "b32me(OP_DUP)", "bech32menc(5)", "b32e()",
+              "verify_sig_compact(0x12)", "verify_sig_compact([0x12 0x34])", "verify_sig_compact(zebra)", "verify_sig_compact([0x%s 0x%s 0x%s])" % (bytes(32).hex(), "02" * 33, "11" * 64),
+              "verify_sig_compact([0x%s 0x%s 0x%s])" % (bytes(64).hex(), "02" * 33, "11" * 64), "verify_sig_compact([0x%s 0x%s 0x%s])" % (bytes(32).hex(), "02" * 32, "11" * 63),
+              "hex(b32me(0x1234))", "len(b58ce(0x1234))", "sha256(len(zebra))", "b32x(0x12)", "b58c(0x12)", "jacobi_symbol(0x12)", "verify-sig-compact(0x12)"]
     nl = ["INLINE " + t.encode("latin1").hex() for t in nested]
     i_impl = ctx.harness_sharded(il + nl)
     i_model = ctx.driver_sharded(il + nl, "model")
@@ -834,9 +851,6 @@ def run(ctx):
     for (name, ex, a), li, lc, im_i, im_c, mo_i in zip(pairs, il, cl, i_impl, c_impl, i_model):
         ctx.nontrivial.add("inl:" + name + ex + a.text[:40])
         if shown(im_i, name) == shown(im_c, name):
-            continue
-        if "F-C14-inline-missing" in ctx.findings and canon(im_i) == canon(mo_i) and (dict(TABLE)[name] is None or ex != dict(TABLE)[name]):
-            ctx.known("F-C14-inline-missing", ctx.findings["F-C14-inline-missing"])
             continue
         bad += 1
         if bad <= 3:
